@@ -281,6 +281,13 @@ pub fn to_hex(value: f64) -> String {
         _ => {
             const BITS: i16 = 52;
             const FRACT_MASK: u64 = 0xf_ffff_ffff_ffff;
+            // subnormals are decoded without the implicit bit as (fraction << 1, -1075);
+            // Python prints them as 0x0.<fraction>p-1022
+            let (mantissa, exponent) = if value.is_normal() {
+                (mantissa, exponent)
+            } else {
+                (mantissa >> 1, exponent + 1)
+            };
             format!(
                 "{}{:#x}.{:013x}p{:+}",
                 sign_fmt,
